@@ -41,7 +41,82 @@ def cases(tier, seed):
             out.append(dict(st, repr=rep, vset=0, total=3 if st["k"] == 2 else 4, seed=seed, tier=tier))
             if st["k"] == 1 and st["support"] == [[1]] and N <= 3 and st["pattern"] == "dense":
                 out.append(dict(st, repr=rep, vset=0, seed=seed, tier=tier, kind="list3"))
+    # symbolic Hamiltonians H(x, y) with mixed monomials: permuting `symbols`, merging x = y = t, monomial bookkeeping
+    for sizes, herm in (((2, 1), True), ((1, 1, 1), True), ((1, 2), False), ((1, 1), True)):
+        for fd in (False, True):
+            out.append(dict(kind="symbols", sizes=list(sizes), hermitian=herm, fd=fd, seed=seed, tier=tier))
     return out
+
+
+def run_symbols(case):
+    import sympy
+
+    from pymablock import block_diagonalize
+    from pymablock.series import one, zero
+
+    sizes = case["sizes"]
+    N = sum(sizes)
+    nb = len(sizes)
+    herm = case["hermitian"]
+    rng = np.random.default_rng([case["seed"], N, nb, 131])
+
+    def term():
+        a = rng.integers(-3, 4, (N, N)) + 1j * rng.integers(-3, 4, (N, N))
+        if herm:
+            a = np.triu(a, 1) + np.triu(a, 1).conj().T + np.diag(np.diag(a).real)
+        return sympy.Matrix(N, N, lambda i, j: sympy.Integer(int(a[i, j].real)) + sympy.I * sympy.Integer(int(a[i, j].imag)))
+
+    x, y, t = sympy.symbols("x y t", real=True)
+    H0 = sympy.diag(*[sympy.Integer(e) for e in lattice.POOL[:N]])
+    terms = {(1, 0): term(), (0, 1): term(), (1, 1): term(), (1, 2): term(), (2, 0): term()}
+    H = H0 + sum((x ** o[0] * y ** o[1] * m for o, m in terms.items()), sympy.zeros(N, N))
+    kwargs = dict(subspace_indices=lattice.block_of(sizes), hermitian=herm)
+    if case["fd"]:
+        kwargs["fully_diagonalize"] = tuple(range(nb))
+    total = 3
+    orders2 = orders_upto_total(2, total)
+
+    def get(s, idx):
+        v = s[idx]
+        i, j = idx[0], idx[1]
+        if v is zero:
+            return sympy.zeros(sizes[i], sizes[j])
+        if v is one:
+            return sympy.eye(sizes[i])
+        return sympy.Matrix(v)
+
+    V = []
+    checks = 0
+    xy = block_diagonalize(H, symbols=[x, y], **kwargs)
+    yx = block_diagonalize(H, symbols=[y, x], **kwargs)
+    merged = block_diagonalize(H.subs({x: t, y: t}), symbols=[t], **kwargs)
+    dct = block_diagonalize({(0, 0): H0, **terms}, **kwargs)
+    nontrivial = False
+    for name, a, b, c, d in zip(("H_tilde", "U", "U_inv"), xy, yx, merged, dct):
+        if tuple(str(q_) for q_ in a.dimension_names) != ("x", "y") or tuple(str(q_) for q_ in b.dimension_names) != ("y", "x"):
+            V.append(f"{name}: dimension_names do not follow the order of `symbols`")
+        for i in range(nb):
+            for j in range(nb):
+                acc = {}
+                for n in orders2:
+                    va = get(a, (i, j) + n)
+                    vb = get(b, (i, j, n[1], n[0]))
+                    vd = get(d, (i, j) + n)
+                    checks += 3
+                    if sympy.expand(va - vb) != sympy.zeros(*va.shape):
+                        V.append(f"{name}[{i},{j},{list(n)}] with symbols=[x, y] differs from element [{n[1]}, {n[0]}] with symbols=[y, x]")
+                    if sympy.expand(va - vd * x ** n[0] * y ** n[1]) != sympy.zeros(*va.shape):
+                        V.append(f"{name}[{i},{j},{list(n)}] of the symbolic input is not x^{n[0]} y^{n[1]} times the order-tuple dict result")
+                    acc[sum(n)] = acc.get(sum(n), sympy.zeros(*va.shape)) + va.subs({x: t, y: t})
+                    if sum(n) >= 2 and vd != sympy.zeros(*vd.shape) and name == "U":
+                        nontrivial = True
+                for m_ in range(total + 1):
+                    checks += 1
+                    if sympy.expand(acc[m_] - get(c, (i, j, m_))) != sympy.zeros(sizes[i], sizes[j]):
+                        V.append(f"{name}[{i},{j}]: order {m_} of H(t, t) is not the sum of the two-parameter orders with n_x + n_y = {m_}")
+    return dict(violations=[dict(what=f"{w} [symbols sizes={sizes} hermitian={herm} fd={case['fd']}]", key=None) for w in V[:4]], nontrivial=nontrivial,
+                outcome="symbols-" + ("ok" if not V else "violation"), stats=dict(relations_checked=checks),
+                sample={k_: v_ for k_, v_ in case.items() if k_ != "seed"})
 
 
 def run_list3(case):
@@ -93,6 +168,14 @@ def run(cfg, values, k, total):
 def run_case(case):
     if case.get("kind") == "list3":
         return run_list3(case)
+    if case.get("kind") == "symbols":
+        try:
+            return run_symbols(case)
+        except Exception as e:  # noqa: BLE001
+            import traceback
+
+            return dict(violations=[dict(what=f"symbols case raises {type(e).__name__}: {str(e)[:120]} @ {traceback.format_exc().strip().splitlines()[-2][:100]}", key=None)],
+                        nontrivial=False, outcome="crash")
     exact = case["repr"] == "sympy"
     k = case["k"]
     total = case["total"]
